@@ -12,6 +12,17 @@ condition:
   the repair of `C03-friendly-multiline-span`), `GetLineText` over every token position the
   lexer's registers can produce;
 * the VM's fixed arrays: an out-of-range index is always the recovered error;
+* native nesting of `vm.eval`: for every sequence of calls, callbacks of builtins, host calls,
+  imports and deferred calls and for every stack limit, the frame array keeps the nesting
+  below `maxFrames` + the number of deferred-call stages open at once (`C03_partial_native`,
+  `native_bounded_by_frames`); recursion through `defer` alone passes every limit (the finding:
+  `pure_defer_recursion_kills`, `C03_counterexample_native`); every way of entering compiled
+  code needs the bound (`each_reentry_needs_bound`);
+* the importer's mutex: every sequence of `Import` calls, whatever the module files contain at
+  the time of each call, returns what the mutex-free Spec returns and leaves the mutex free
+  (`import_never_fatal`, for every balanced assignment of mutex events to the paths:
+  `balanced_paths_never_fatal`); an `Unlock` by hand on the error path ends the process
+  (`unbalanced_error_path_kills`);
 * `Inspect` terminates on every heap, cyclic ones included; `Equals` does not (the finding),
   and does on every heap without cycles;
 * the two loops of `parseSwitch` that depend on `nextToken` end on EVERY token stream, error
@@ -312,6 +323,297 @@ example : Body.ofVm (vmRun Vm.init (List.replicate 1024 .call)) = .panics "index
 example : enterImpl .thread (.panics "x") = .error "panic: x" := by decide
 example : enterImpl .run .returns = .value := by decide
 example : requiredRecovers.all (requiredRecovers.contains ·) = true := by decide
+
+/-! ## Native nesting of `vm.eval`: the frame array bounds it — except through `defer` -/
+
+/-- one step keeps `native ≤ fp + opened` and `fp < maxFrames` -/
+theorem nestStep_inv (limit : Nat) (s s' : Nest) (o : NOp)
+    (hi : s.native ≤ s.fp + s.opened) (hf : s.fp < maxFrames) (h : nestStep limit s o = .ok s') :
+    s'.native ≤ s'.fp + s'.opened ∧ s'.fp < maxFrames := by
+  cases o with
+  | enter r =>
+    simp only [nestStep, nestStepG, allBounded, Bool.true_and] at h
+    by_cases c : s.fp + 1 < maxFrames
+    · simp only [c, decide_true, Bool.not_true] at h
+      by_cases c2 : s.native + 1 ≤ limit
+      · simp only [c2, if_true] at h
+        simp at h
+        subst h
+        exact ⟨by simp only; omega, c⟩
+      · simp [c2] at h
+    · simp [c] at h
+  | leave =>
+    simp only [nestStep, nestStepG] at h
+    cases h
+    exact ⟨by simp only; omega, by simp only; omega⟩
+  | exitDefers =>
+    simp only [nestStep, nestStepG] at h
+    cases h
+    exact ⟨by simp only; omega, by simp only; omega⟩
+  | defersDone =>
+    simp only [nestStep, nestStepG] at h
+    cases h
+    exact ⟨by simp only; omega, by simp only; omega⟩
+
+theorem peakOpen_ge (ops : List NOp) : ∀ o, o ≤ peakOpen o ops := by
+  induction ops with
+  | nil => intro o; exact Nat.le_refl _
+  | cons op r _ =>
+    intro o
+    cases op <;> simp only [peakOpen] <;> exact Nat.le_max_left _ _
+
+/-- the `opened` counter after a step is what `peakOpen` continues with -/
+theorem peakOpen_step (limit : Nat) (s s' : Nest) (o : NOp) (r : List NOp)
+    (h : nestStep limit s o = .ok s') : peakOpen s'.opened r ≤ peakOpen s.opened (o :: r) := by
+  cases o with
+  | enter q =>
+    simp only [nestStep, nestStepG] at h
+    split at h
+    · cases h
+    · split at h
+      · cases h; simp only [peakOpen]; exact Nat.le_max_right _ _
+      · cases h
+  | leave =>
+    simp only [nestStep, nestStepG] at h
+    cases h; simp only [peakOpen]; exact Nat.le_max_right _ _
+  | exitDefers =>
+    simp only [nestStep, nestStepG] at h
+    cases h; simp only [peakOpen]; exact Nat.le_max_right _ _
+  | defersDone =>
+    simp only [nestStep, nestStepG] at h
+    cases h; simp only [peakOpen]; exact Nat.le_max_right _ _
+
+/-- **PARTIAL (`native_nesting_bounded`)**: for EVERY sequence of re-entries, exits and
+    deferred-call stages (any length, any mix of the five ways compiled code is entered), from
+    every state that satisfies the invariant, and for EVERY stack limit: if the limit holds
+    `maxFrames` activations plus as many as deferred-call stages are ever open at once
+    (`peakOpen`, the guard — a decidable function of the sequence), the run is never killed.
+    It stays inside the frame array or stops with the recoverable index panic. -/
+theorem C03_partial_native (limit : Nat) (ops : List NOp) :
+    ∀ s : Nest, s.native ≤ s.fp + s.opened → s.fp < maxFrames →
+      peakOpen s.opened ops + maxFrames ≤ limit → ∀ w, nestRun limit s ops ≠ .killed w := by
+  induction ops with
+  | nil => intro s _ _ _ w h; simp [nestRun, nestRunG] at h
+  | cons o r ih =>
+    intro s hi hf hp w
+    show nestRunG allBounded limit s (o :: r) ≠ .killed w
+    simp only [nestRunG]
+    have hstep : nestStepG allBounded limit s o = nestStep limit s o := rfl
+    cases hs : nestStepG allBounded limit s o with
+    | ok s' =>
+      simp only
+      have hinv := nestStep_inv limit s s' o hi hf (hstep ▸ hs)
+      have hpk := peakOpen_step limit s s' o r (hstep ▸ hs)
+      exact ih s' hinv.1 hinv.2 (by omega) w
+    | recovered w' => simp
+    | killed w' =>
+      exfalso
+      have hge := peakOpen_ge (o :: r) s.opened
+      cases o with
+      | enter q =>
+        simp only [nestStepG, allBounded, Bool.true_and] at hs
+        by_cases c : s.fp + 1 < maxFrames
+        · simp only [c, decide_true, Bool.not_true] at hs
+          have c2 : s.native + 1 ≤ limit := by omega
+          simp [c2] at hs
+        · simp [c] at hs
+      | leave => simp [nestStepG] at hs
+      | exitDefers => simp [nestStepG] at hs
+      | defersDone => simp [nestStepG] at hs
+
+/-- … in particular without deferred-call stages: every stack that holds `maxFrames`
+    activations is enough for EVERY sequence of calls, callbacks of builtins, host calls and
+    imports, however they are mixed — recursion through a builtin's callback is stopped by
+    the frame array exactly as recursion through the Call opcode is. -/
+theorem native_bounded_by_frames (limit : Nat) (hl : maxFrames ≤ limit) (ops : List NOp)
+    (hg : peakOpen 0 ops = 0) (w : String) : nestRun limit Nest.init ops ≠ .killed w := by
+  apply C03_partial_native limit ops Nest.init
+  · exact Nat.zero_le _
+  · unfold Nest.init maxFrames; simp
+  · show peakOpen 0 ops + maxFrames ≤ limit
+    omega
+
+/-- … and under every entry point, with the three recover scopes, such a run is a value or an
+    error for the host — never the death of the process. -/
+theorem nest_contained (limit : Nat) (ops : List NOp) (e : Entry)
+    (hg : peakOpen 0 ops + maxFrames ≤ limit) :
+    (enterNest requiredRecovers e (nestRun limit Nest.init ops)).isKilled = false := by
+  have h := C03_partial_native limit ops Nest.init (Nat.zero_le _)
+    (by unfold Nest.init maxFrames; simp) hg
+  cases hr : nestRun limit Nest.init ops with
+  | ok s => rfl
+  | recovered w =>
+    simp only [enterNest]
+    exact enter_not_killed requiredRecovers (by decide) e (.panics w)
+  | killed w => exact absurd hr (h w)
+
+/-- the rounds of a recursion through `defer` alone: the frame index swings between 0 and 1
+    while one native activation is added per round, until the stack limit is passed -/
+theorem deferRounds_kill (limit : Nat) (n : Nat) :
+    ∀ k o, k ≤ limit → limit < k + n →
+      nestRun limit ⟨1, k, o⟩ (deferRounds n) = .killed "stack overflow" := by
+  induction n with
+  | zero => intro k o h1 h2; omega
+  | succ n ih =>
+    intro k o h1 h2
+    show nestRunG allBounded limit ⟨1, k, o⟩ (.exitDefers :: .enter .deferred :: deferRounds n) = _
+    have hm : (0 : Nat) + 1 < maxFrames := by unfold maxFrames; omega
+    by_cases c : k + 1 ≤ limit
+    · have := ih (k + 1) (o + 1) c (by omega)
+      simp only [nestRunG, nestStepG, allBounded, Bool.true_and, hm, decide_true, Bool.not_true,
+        Nat.sub_self, c, if_true]
+      simpa [nestRun] using this
+    · simp [nestRunG, nestStepG, allBounded, hm, c]
+
+/-- FULL statement (false): some finite goroutine stack is enough for every sequence. -/
+def C03_full_native : Prop :=
+  ∃ limit, ∀ (ops : List NOp) (w : String), nestRun limit Nest.init ops ≠ .killed w
+
+/-- `func w(x) { defer w(x+1) }; w(0)`: whatever the stack limit, `limit + 1` rounds pass it —
+    the frame index never gets past 1, so the frame array never ends the recursion. -/
+theorem pure_defer_recursion_kills (limit : Nat) :
+    nestRun limit Nest.init (pureDeferRecursion (limit + 1)) = .killed "stack overflow" := by
+  show nestRunG allBounded limit Nest.init (.enter .callOp :: deferRounds (limit + 1)) = _
+  have hm : (0 : Nat) + 1 < maxFrames := by unfold maxFrames; omega
+  by_cases c : 0 + 1 ≤ limit
+  · have := deferRounds_kill limit (limit + 1) 1 0 c (by omega)
+    simp only [nestRunG, nestStepG, allBounded, Bool.true_and, Nest.init, hm, decide_true,
+      Bool.not_true, c, if_true]
+    simpa [nestRun] using this
+  · simp [nestRunG, nestStepG, allBounded, Nest.init, hm, c]
+
+/-- COUNTEREXAMPLE (finding `C03-defer-recursion-stack-overflow`): no finite stack is enough. -/
+theorem C03_counterexample_native : ¬ C03_full_native := by
+  intro ⟨limit, h⟩
+  exact h _ _ (pure_defer_recursion_kills limit)
+
+/-- every way of entering compiled code needs the bound of the frame array: if entering
+    through `r` does not index the fixed array (say the frames become a slice that grows, and
+    the depth is tested on another path only), then for EVERY stack limit `limit + 1` nested
+    entries through `r` end the process. -/
+theorem each_reentry_needs_bound (bounded : Reentry → Bool) (r : Reentry) (hr : bounded r = false)
+    (limit : Nat) :
+    ∀ s : Nest, s.native ≤ limit → ∀ n, limit < s.native + n →
+      nestRunG bounded limit s (List.replicate n (.enter r)) = .killed "stack overflow" := by
+  intro s hs n
+  induction n generalizing s with
+  | zero => intro h; omega
+  | succ n ih =>
+    intro h
+    simp only [List.replicate, nestRunG, nestStepG, hr, Bool.false_and]
+    by_cases c : s.native + 1 ≤ limit
+    · simp only [Bool.false_eq_true, if_false, c, if_true]
+      exact ih ⟨s.fp + 1, s.native + 1, s.opened⟩ c (by simp only; omega)
+    · simp [c]
+
+-- recursion through a callback is stopped at the end of the array, like recursion through Call
+set_option maxRecDepth 20000 in
+example : nestRun 100000 Nest.init (List.replicate 1024 (.enter .callback))
+    = .recovered "index out of range (frames)" := by decide
+example : nestRun 5000 Nest.init (List.replicate 3 (.enter .callback) ++ List.replicate 3 .leave)
+    = .ok ⟨0, 0, 0⟩ := by decide
+example : peakOpen 0 (List.replicate 3 (.enter .callback) ++ List.replicate 3 .leave) = 0 := by decide
+-- a function with a deferred call, called in a loop: one stage open at a time
+example : peakOpen 0 [.enter .callOp, .exitDefers, .enter .deferred, .leave, .defersDone,
+    .enter .callOp, .exitDefers, .enter .deferred, .leave, .defersDone] = 1 := by decide
+example : peakOpen 0 (pureDeferRecursion 7) = 7 := by decide
+example : nestRun 10 Nest.init (pureDeferRecursion 11) = .killed "stack overflow" := by decide
+-- `func a(x) { defer b(x) }; func b(x) { a(x+1) }`: one frame per round, the array ends it
+example : nestRun 10 ⟨1022, 0, 0⟩ [.enter .callOp, .exitDefers, .enter .deferred, .enter .callOp]
+    = .recovered "index out of range (frames)" := by decide
+
+/-! ## The importer's mutex -/
+
+theorem muPath_lock_defer : muPath false [.lock, .deferUnlock] = .done false := rfl
+
+/-- **`balanced_paths_never_fatal`**: for EVERY assignment of mutex events to the four paths of
+    `Import` that leaves the mutex free on each of them, EVERY sequence of `Import` calls — any
+    names, any state of each file at the time of its call, any length — returns exactly what
+    the mutex-free Spec returns (a module when cached or compilable, else an error) and leaves
+    the mutex free: no call ends the process, none blocks. -/
+theorem balanced_paths_never_fatal (paths : Paths)
+    (hb : ∀ c f, muPath false (paths c f) = .done false) (steps : List (String × FileSt)) :
+    ∀ s : Imp, s.held = false →
+      ∃ s', importSeq paths s steps = .ok (specSeq s.cache steps) s' ∧ s'.held = false := by
+  induction steps with
+  | nil => intro s h; exact ⟨s, rfl, h⟩
+  | cons st rest ih =>
+    intro s h
+    obtain ⟨n, f⟩ := st
+    have hs : s = ⟨s.cache, false⟩ := by cases s; simp_all
+    simp only [importSeq, importOne, specSeq, h, hb]
+    by_cases c : s.cache.contains n = true
+    · simp only [c, if_true]
+      obtain ⟨s', h1, h2⟩ := ih { s with held := false } rfl
+      simp only at h1
+      rw [h1]
+      exact ⟨s', rfl, h2⟩
+    · simp only [c, Bool.false_eq_true, if_false]
+      cases f with
+      | missing =>
+        obtain ⟨s', h1, h2⟩ := ih { s with held := false } rfl
+        simp only at h1 ⊢
+        rw [h1]; exact ⟨s', rfl, h2⟩
+      | bad =>
+        obtain ⟨s', h1, h2⟩ := ih { s with held := false } rfl
+        simp only at h1 ⊢
+        rw [h1]; exact ⟨s', rfl, h2⟩
+      | good =>
+        obtain ⟨s', h1, h2⟩ := ih ⟨n :: s.cache, false⟩ rfl
+        simp only at h1 ⊢
+        rw [h1]; exact ⟨s', rfl, h2⟩
+
+/-- **`import_never_fatal`** (the code as it is: `Lock(); defer Unlock()` on every path): every
+    sequence of `Import` calls on a fresh or used importer returns what the Spec returns; the
+    process is never terminated by the mutex, whatever the module files contain. -/
+theorem import_never_fatal (steps : List (String × FileSt)) (s : Imp) (h : s.held = false) :
+    ∃ s', importSeq implPaths s steps = .ok (specSeq s.cache steps) s' ∧ s'.held = false :=
+  balanced_paths_never_fatal implPaths (fun _ _ => rfl) steps s h
+
+/-- a module whose source does not parse or compile is an ERROR of that `Import` call and
+    nothing else: the importer is exactly as it was (nothing cached, mutex free) -/
+theorem import_bad_module_is_error (s : Imp) (n : String) (h : s.held = false)
+    (hc : s.cache.contains n = false) :
+    importOne implPaths s n .bad = .ret (.error "parse or compile error") s := by
+  cases s with
+  | mk cache held =>
+    simp only at h hc
+    subst h
+    have hm : n ∉ cache := by simpa using hc
+    simp [importOne, implPaths, muPath, muRun, muReturn, hm]
+
+/-- why the discipline matters: with the lock released by hand around parseAndCompile and the
+    early return for a compile error taken before the lock is re-acquired, the first import of
+    a module that does not compile ends the process, for every importer state and name … -/
+theorem unbalanced_error_path_kills (s : Imp) (n : String) (h : s.held = false)
+    (hc : s.cache.contains n = false) :
+    importOne unbalancedPaths s n .bad = .fatal "sync: unlock of unlocked mutex" := by
+  have hm : n ∉ s.cache := by simpa using hc
+  simp [importOne, unbalancedPaths, muPath, muRun, muReturn, hm, h]
+
+/-- … while modules that compile, cached modules and missing modules behave as before, which
+    is why only a search that imports BROKEN modules can see it. -/
+theorem unbalanced_other_paths_return (s : Imp) (n : String) (f : FileSt) (h : s.held = false)
+    (hf : s.cache.contains n = true ∨ f ≠ .bad) :
+    importOne unbalancedPaths s n f = importOne implPaths s n f := by
+  cases s with
+  | mk cache held =>
+    simp only at h hf
+    subst h
+    by_cases c : n ∈ cache
+    · simp [importOne, unbalancedPaths, implPaths, muPath, muRun, muReturn, c]
+    · cases f with
+      | bad => simp [c] at hf
+      | missing => simp [importOne, unbalancedPaths, implPaths, muPath, muRun, muReturn, c]
+      | good => simp [importOne, unbalancedPaths, implPaths, muPath, muRun, muReturn, c]
+
+example : importSeq implPaths Imp.init [("a", .good), ("b", .bad), ("a", .missing), ("b", .good), ("c", .missing)]
+    = .ok [.module, .error "parse or compile error", .module, .module, .error "import error: module not found"]
+        ⟨["b", "a"], false⟩ := by decide
+example : importSeq unbalancedPaths Imp.init [("a", .good), ("b", .bad), ("a", .good)]
+    = .fatal 1 "sync: unlock of unlocked mutex" := by decide
+example : muPath false [.lock, .lock] = .blocked := rfl
+example : muPath false [.lock, .deferUnlock, .deferUnlock] = .fatal "sync: unlock of unlocked mutex" := rfl
 
 /-! ## Inspect terminates on every heap; Equals does not -/
 
